@@ -805,6 +805,37 @@ pub fn purity<const N: usize, H: HandN<N>>(run: &mut Run, clause: &'static str, 
     Ok(())
 }
 
+/// six- and seven-card hands built from every third class representative plus low extra cards
+fn rep_hands() -> Vec<Vec<u32>> {
+    let t = poker::tables();
+    let mut v = Vec::new();
+    for o in (1..=7462usize).step_by(3) {
+        let five: Vec<u32> = t.rep[o].iter().map(|c| card::BY_CI[*c as usize]).collect();
+        let extras: Vec<u32> = card::BY_CI.iter().copied().filter(|w| !five.contains(w)).take(2).collect();
+        let mut six = five.clone();
+        six.insert(2, extras[0]);
+        let mut seven = six.clone();
+        seven.insert(0, extras[1]);
+        v.push(six);
+        v.push(seven);
+    }
+    v
+}
+
+fn rep_value_check(ws: &Vec<u32>) -> Result<(), String> {
+    let case = {
+        let mut c = hand_json(ws);
+        c.as_object_mut().unwrap().insert("entry".into(), json!(if ws.len() == 6 { SIX_ENTRIES[0].0 } else { SEVEN_ENTRIES[0].0 }));
+        c
+    };
+    for e in 0..5 {
+        let mut c = case.clone();
+        c.as_object_mut().unwrap().insert("entry".into(), json!(if ws.len() == 6 { SIX_ENTRIES[e].0 } else { SEVEN_ENTRIES[e].0 }));
+        check_case_c02("C02.value", &c)?;
+    }
+    Ok(())
+}
+
 // ---------------------------------------------------------------------------------------------
 // C02
 
@@ -814,6 +845,11 @@ pub fn run_c02(run: &mut Run) -> PResult {
     let thorough = run.tier == Tier::Thorough;
     let twin = run.is_twin();
     super::regress::replay_dir(run, "C02", check_case_c02)?;
+    disturbance_pass(run, &rep_hands(), &rep_value_check, &|ws| {
+        let mut c = hand_json(ws);
+        c.as_object_mut().unwrap().insert("entry".into(), json!(if ws.len() == 6 { SIX_ENTRIES[0].0 } else { SEVEN_ENTRIES[0].0 }));
+        ("C02.value".into(), c, card::render_hand(ws))
+    })?;
     if !twin {
         // first: ranking must be a function of the hand alone (a leak of state between calls would
         // make every later enumeration result depend on scheduling)
@@ -867,6 +903,9 @@ pub fn check_sequence_case(case: &Value, mode: Mode) -> Result<(), String> {
 
 pub fn check_case_c02(clause: &str, case: &Value) -> Result<(), String> {
     let t = poker::tables();
+    if clause.ends_with(".after_disturbance") {
+        return replay_after_disturbance(case, check_case_c02);
+    }
     if clause == "C02.sequence" {
         return check_sequence_case(case, Mode::Value);
     }
@@ -929,6 +968,7 @@ pub fn run_c03(run: &mut Run) -> PResult {
     run.assume("no claim about which of several equally ranked witnesses is chosen");
     let thorough = run.tier == Tier::Thorough;
     super::regress::replay_dir(run, "C03", check_case_c03)?;
+    disturbance_pass(run, &rep_hands(), &|ws| check_case_c03("C03.witness", &hand_json(ws)), &|ws| ("C03.witness".into(), hand_json(ws), card::render_hand(ws)))?;
     if !run.is_twin() {
         purity::<5, H5>(run, "C03.sequence", Mode::Witness)?;
         purity::<6, H6>(run, "C03.sequence", Mode::Witness)?;
@@ -984,6 +1024,9 @@ pub fn run_c03(run: &mut Run) -> PResult {
 }
 
 pub fn check_case_c03(clause: &str, case: &Value) -> Result<(), String> {
+    if clause.ends_with(".after_disturbance") {
+        return replay_after_disturbance(case, check_case_c03);
+    }
     if clause == "C03.sequence" {
         return check_sequence_case(case, Mode::Witness);
     }
@@ -1110,6 +1153,7 @@ pub fn run_c09(run: &mut Run) -> PResult {
     run.assume("metamorphic relation only: no poker oracle is used here (C02 carries the rule-based oracle)");
     let thorough = run.tier == Tier::Thorough;
     super::regress::replay_dir(run, "C09", check_case_c09)?;
+    disturbance_pass(run, &rep_hands(), &|ws| check_case_c09(if ws.len() == 6 { "C09.six" } else { "C09.seven" }, &hand_json(ws)), &|ws| ((if ws.len() == 6 { "C09.six" } else { "C09.seven" }).into(), hand_json(ws), card::render_hand(ws)))?;
     if !run.is_twin() {
         // the relation is between values of different calls: those values must not depend on call order
         purity::<6, H6>(run, "C09.sequence", Mode::Value)?;
@@ -1227,6 +1271,9 @@ pub fn run_c09(run: &mut Run) -> PResult {
 }
 
 pub fn check_case_c09(clause: &str, case: &Value) -> Result<(), String> {
+    if clause.ends_with(".after_disturbance") {
+        return replay_after_disturbance(case, check_case_c09);
+    }
     if clause == "C09.sequence" {
         return check_sequence_case(case, Mode::Value);
     }
